@@ -264,6 +264,36 @@ B64OK(bw) ==
 B64Table == {[w |-> bw, ok |-> B64OK(bw)] : bw \in B64Words}
 
 ------------------------------------------------------------------------------
+(* Further facets.  None == 99 stands for "facet not given".                      *)
+(* length family on xs:string (measured in characters of the value as written:     *)
+(* whiteSpace = preserve); values are given by their length.                       *)
+StrFacets == {f \in [len : {99, 2}, minl : {99, 1, 3}, maxl : {99, 2, 3}] :
+                f.len = 99 \/ (f.minl = 99 /\ f.maxl = 99)}        \* length excludes the other two (XSD 1.0)
+StrLens == 0..4
+StrOK(f, n) == /\ (f.len # 99 => n = f.len) /\ (f.minl # 99 => n >= f.minl) /\ (f.maxl # 99 => n <= f.maxl)
+StrTable == {[f |-> f, n |-> n, ok |-> StrOK(f, n)] : f \in StrFacets, n \in StrLens}
+
+(* digits on xs:decimal: both count digits of the VALUE (trailing fraction zeros and *)
+(* leading zeros do not count).  A candidate is <<text, total digits, fraction digits>> *)
+DecCands == {<<"1", 1, 0>>, <<"1.5", 2, 1>>, <<"1.50", 2, 1>>, <<"1.55", 3, 2>>, <<"12.5", 3, 1>>,
+             <<"123.4", 4, 1>>, <<"0.5", 1, 1>>, <<"010", 2, 0>>, <<"1.0", 1, 0>>}
+DigFacets == [td : {99, 2, 3}, fd : {99, 0, 1}]
+DigOK(f, c) == (f.td # 99 => c[2] <= f.td) /\ (f.fd # 99 => c[3] <= f.fd)
+DigTable == {[f |-> f, text |-> c[1], ok |-> DigOK(f, c)] : f \in {g \in DigFacets : g.td = 99 \/ g.fd = 99 \/ g.fd <= g.td},
+                                                             c \in DecCands}
+
+(* pattern [a-c]{2} on xs:string (preserve) and xs:token (collapse): the pattern sees the *)
+(* normalised value                                                                      *)
+PatCands == {"ab", "abc", "d", "_ab", "ab_", "a_b", "cc"}        \* "_" is a blank
+PatOK(base, x) == CASE base = "string" -> x \in {"ab", "cc"}
+                    [] base = "token"  -> x \in {"ab", "cc", "_ab", "ab_"}
+PatTable == {[base |-> b, x |-> x, ok |-> PatOK(b, x)] : b \in {"string", "token"}, x \in PatCands}
+
+(* XSD 1.1 explicitTimezone on xs:date *)
+TzTable == {[tz |-> tz, z |-> z, ok |-> (tz = "optional" \/ (tz = "required") = (z # ""))] :
+              tz \in {"optional", "required", "prohibited"}, z \in {"", "Z", "+01:00"}}
+
+------------------------------------------------------------------------------
 (* The word machine: builds class words symbol by symbol; a word that holds a  *)
 (* hostile class can never become valid and is not extended.                   *)
 CONSTANTS MaxLen, Kinds
